@@ -72,6 +72,21 @@ func strs(l ...string) []any {
 	return out
 }
 
+// lcHeader: in pairs about it every endpoint carries a header whose name is not spelled canonically;
+// its value is what differs.
+func lcHeader(p Pair, side int, l []kv) []kv {
+	if p.Comp != "ep_header_lc" {
+		return l
+	}
+
+	v := "tenant-1"
+	if side == 2 && p.Rel == "differ" {
+		v = "tenant-2"
+	}
+
+	return append(append([]kv{}, l...), kv{"x-tenant-id", v})
+}
+
 func hdrs(n int) []kv {
 	var l []kv
 	for i := 1; i <= n; i++ {
@@ -303,6 +318,8 @@ func subHandler(p Pair, side int, base string, authz bool) (evalFn, error) {
 		}
 	}
 
+	sp.hdrs = lcHeader(p, side, sp.hdrs)
+
 	epConf := map[string]any{"url": base + sp.path + urlTail, "method": sp.method}
 	if len(sp.hdrs) != 0 {
 		epConf["headers"] = kvMap(sp.hdrs)
@@ -401,6 +418,8 @@ func genericAuthn(p Pair, side int, base string) (evalFn, error) {
 		}
 	}
 
+	h = lcHeader(p, side, h)
+
 	epConf := map[string]any{"url": base + path, "method": "POST"}
 	if len(h) != 0 {
 		epConf["headers"] = kvMap(h)
@@ -470,6 +489,8 @@ func introspection(p Pair, side int, base string) (evalFn, error) {
 			h = []kv{{"X-Abc", "d"}}
 		}
 	}
+
+	h = lcHeader(p, side, h)
 
 	epConf := map[string]any{"url": base + path}
 	if len(h) != 0 {
